@@ -18,6 +18,7 @@
 import json
 import os
 import shutil
+import time
 import vlib
 from vlib import Check, run_tlc, run_cmd, build_harness, validate_trace, FrameworkError, WORK, log
 
@@ -64,9 +65,20 @@ def _case_order(c):
     return (kind, c["nd"], len(c["valid"]), sum(1 << j for j in c["valid"]))
 
 
+def _run_binary(cmd, timeout=None, env=None):
+    """run_cmd, retried while libompl.so is being relinked by a concurrent build of the shared work tree."""
+    for attempt in range(6):
+        rc, out, err = run_cmd(cmd, timeout=timeout, env=env)
+        if rc == 127 and "error while loading shared libraries" in err:
+            time.sleep(10)
+            continue
+        break
+    return rc, out, err
+
+
 def _run_harness(ck, binary, mode, path, label, timeout=3000):
     """Run one harness pass; turn every failure key into a violation.  Returns the summary."""
-    rc, out, err = run_cmd([binary, mode, path], timeout=timeout)
+    rc, out, err = _run_binary([binary, mode, path], timeout=timeout)
     fw = _parse_text(out, "FRAMEWORK")
     if fw is not None:
         raise FrameworkError("motion harness (%s): %s" % (label, fw))
@@ -216,8 +228,8 @@ def run(tier):
     # 4. recorded curved motions validated against the contract
     for i in range(nfiles):
         tpath = os.path.join(WORK, "c05-trace-%d.ndjson" % i)
-        rc, out, err = run_cmd([binary, "record", tpath, str(ntrace)], timeout=1200,
-                               env={"VERIF_SEED": str(vlib.seed() * 131 + i)})
+        rc, out, err = _run_binary([binary, "record", tpath, str(ntrace)], timeout=1200,
+                                   env={"VERIF_SEED": str(vlib.seed() * 131 + i)})
         fw = _parse_text(out, "FRAMEWORK")
         if fw is not None:
             raise FrameworkError("motion record: " + fw)
